@@ -17,7 +17,7 @@ EXPLANATION = (
     "point: when last_apath is set the hunk iterator goes through advance_to_after(last_apath), and last_apath is "
     "updated from the last entry of each hunk that is installed; (6) a returned entry is the buffered entry itself."
 )
-UNDECIDED = ["the three-case skip arithmetic in IndexHunkIter::next (hunk entirely before / after / straddling the resume path; binary-search off-by-one)",
+UNDECIDED = ["the hunk-level cases of IndexHunkIter::try_next (hunk entirely before / entirely after the resume path); inside a straddling hunk only the Ok/Err arm relation of the binary search is decided (C08.7)",
              "'strictly increasing, no duplicates' for every hunk alignment (value-level reasoning over all layouts)"]
 ASSUMPTIONS = []
 
@@ -280,6 +280,8 @@ def run(ck, w):
         else:
             ck.fail(o, aa.name, "after not set from the argument", "advance_to_after provenance changed")
 
+    _resume_skip(ck, w)
+
     # ---- 6. entries are returned unmodified -----------------------------------------------------------------------
     o = ck.ob("C08.6", "Stitch::next returns the buffered entry itself")
     rets = [(bb, s) for bb, j, s in rules.agg_sites(sn, "std::option::Option", "Some") if s["pl"]["l"] == 0]
@@ -305,3 +307,77 @@ def _in_await_loop(body, bb):
             if not body.reaches(bb, bb, removed_nodes={x}):
                 return True
     return False
+
+
+def _resume_skip(ck, w):
+    """C08.7: skipping inside a straddling hunk. After binary_search_by_key(after): an exact hit
+    (Ok(i)) must resume one position LATER than a miss (Err(i)) - otherwise the resume path itself
+    is listed twice (or an entry is lost)."""
+    lib = w.lib
+    b = w.body("index::IndexHunkIter::try_next") if "index::IndexHunkIter::try_next" in lib.bodies else w.body("index::IndexHunkIter::next")
+    o = ck.ob("C08.7", "IndexHunkIter: inside a straddling hunk an exact hit of the resume path resumes exactly one entry later than a miss")
+    bs = [e for e in b.events if e.bb in b.live and re.search(r"<impl \[T\]>::binary_search(_by|_by_key)?$", e.name)]
+    pp = [e for e in b.events if e.bb in b.live and re.search(r"<impl \[T\]>::partition_point$", e.name)]
+    if not bs and pp:
+        ck.ok(o, "partition_point idiom (no Ok/Err arms to compare)", instances=len(pp))
+        return
+    if len(bs) != 1:
+        ck.fail(o, b.name, "resume-skip idiom not recognised", "expected one binary search over the hunk, found %d" % len(bs))
+        return
+    e = bs[0]
+    # the key closure must project the apath, and the needle must be the `after` path
+    needle = flow.origins_x(lib, b, e.args[1]) if len(e.args) > 1 else set()
+    if not any(x[0] in ("param", "upvar") and "after" in x[2] for x in needle):
+        ck.fail(o, b.name, "binary search needle is not self.after", "needle derives from %s" % flow.origin_summary(needle), e.site())
+        return
+    sw = None
+    for (sb, tested, arms, other) in flow.discriminant_switches(b, flow.result_carriers(b, e.dest["l"])):
+        if b.locals[tested].startswith("std::result::Result"):
+            sw = (sb, arms, other)
+    if sw is None:
+        ck.fail(o, b.name, "binary search result not matched", "no match on Ok/Err of the binary search", e.site())
+        return
+    sb, arms, other = sw
+
+    def added(arm_target, variant):
+        """Sum of the constants added to the payload on this arm before the arms join."""
+        payload = set()
+        total = 0
+        other_t = [t for v, t in arms.items() if t != arm_target] + [other]
+        region = b.reachable(arm_target, removed_nodes={sb})
+        # blocks only in this arm: reachable from this arm but not from the other arm
+        other_reach = set()
+        for t in other_t:
+            if t != arm_target:
+                other_reach |= b.reachable(t, removed_nodes={sb})
+        mine = region - other_reach
+        for bb in sorted(mine):
+            for st in b.blocks[bb]["stmts"]:
+                if st["sk"] != "assign":
+                    continue
+                rv = st["rv"]
+                if rv["rk"] == "use" and rv["ops"][0].get("k") in ("copy", "move"):
+                    src = rv["ops"][0]["pl"]
+                    if src["l"] == e.dest["l"] and src["p"] and src["p"][0] == "dc:" + variant:
+                        payload.add(st["pl"]["l"])
+                    elif src["l"] in payload and not src["p"]:
+                        payload.add(st["pl"]["l"])
+                    elif src["l"] in payload and src["p"] and src["p"][0].startswith("f:0"):
+                        payload.add(st["pl"]["l"])
+                elif rv["rk"] == "binop" and rv["op"].startswith(("Add", "Sub")):
+                    ls = [flow.operand_local(x) for x in rv["ops"]]
+                    cs = [int(x["int"]) for x in rv["ops"] if x.get("k") == "const" and "int" in x]
+                    if any(l in payload for l in ls) and cs:
+                        total += cs[0] if rv["op"].startswith("Add") else -cs[0]
+                        payload.add(st["pl"]["l"])
+        return total if payload else None
+    ok_add = added(arms.get(0), "Ok") if 0 in arms else None
+    err_add = added(arms.get(1, other), "Err")
+    if ok_add is None or err_add is None:
+        ck.fail(o, b.name, "Ok/Err arms of the binary search are not distinguished",
+                "the exact-hit and the miss case take the same position: the resume path would be listed again", e.site())
+    elif ok_add - err_add != 1:
+        ck.fail(o, b.name, "exact hit does not resume one later than a miss",
+                "Ok arm adds %d, Err arm adds %d to the found position" % (ok_add, err_add), e.site())
+    else:
+        ck.ok(o, "Ok(i) -> i+%d, Err(i) -> i+%d" % (ok_add, err_add), sites=[e.site()])
